@@ -483,7 +483,9 @@ def _collect_update_commands(
             for propkey in set(propkey_to_col).intersection(
                 state.committed_state
             ):
-                value = state_dict[propkey]
+                # an attribute removed with "del obj.attr" has no value in
+                # the dict; it is persisted as NULL, as for INSERT
+                value = state_dict.get(propkey, None)
                 col = propkey_to_col[propkey]
 
                 if hasattr(value, "__clause_element__") or isinstance(
